@@ -49,7 +49,7 @@ def gen_case(rng, hostile_p=0.08, limits=None, max_nodes=40, n_frames=None, n_wa
     for i in range(nf):
         d = g.locals_dict()
         if rng.random() < 0.25:
-            d["self"] = rng.choice([objgen.Plain(), objgen.Person("p", 3), None, 5, objgen.BadLen(), objgen.BadBool(), objgen.Falsy(),
+            d["self"] = rng.choice([objgen.Plain(), objgen.Person("p", 3), None, 5, objgen.BadLen(), objgen.BadBool(), objgen.Falsy(), objgen.BadGetattribute(),
                                     objgen.Falsy(), 0, ""])
             g.pool.append(d["self"])
         frames.append(dict(file=rng.choice(["/app/src/main.py", "/app/lib/util.py", "/usr/lib/python3/os.py", "/other/x.py"]),
